@@ -298,7 +298,8 @@ def h_daemon_release(age: int, backoff: int, timeout: int, has_backoff: bool) ->
 # ---------------------------------------------------------------------------------------- H3 history
 def run_history(steps, conflict_at, fail_first, ties=(), fk=0):
     """steps: list over {0: delete request, 1: label off, 2: label on, 3: noop event, 4: restart}."""
-    w = World(base_body(labels={'run': 'yes'}, finalizers=['a/fin']))
+    from kopf._core.actions import lifecycles as _lc
+    w = World(base_body(labels={'run': 'yes'}, finalizers=['a/fin']), lifecycle=_lc.asap if vkopf.cell('two_delete', False) else None)
     calls = w.calls
     attempts = [0]
 
@@ -310,7 +311,12 @@ def run_history(steps, conflict_at, fail_first, ties=(), fk=0):
         attempts[0] += 1
         calls.append('delete')
         if fail_first and attempts[0] == 1:
-            raise kopf.TemporaryError('later', delay=2)
+            raise kopf.TemporaryError('later', delay=vkopf.cell('retry_delay', 2))     # (0 = "retry at once": still unfinished)
+
+    if vkopf.cell('two_delete', False):
+        @kopf.on.delete(PLURAL, id='d2', registry=w.registry, labels={'run': 'yes'})
+        async def d2(**kw):
+            calls.append('delete2')
 
     snaps = []      # (finalizers, delete handler finished?, deleting?) after every server write
     foreign = {'done': False}
@@ -403,6 +409,8 @@ def h_history(s0: int, s1: int, s2: int, conflict_at: int, fail_first: bool, fk:
         deleting = bool(last['metadata'].get('deletionTimestamp'))
         match = last['metadata'].get('labels', {}).get('run') == 'yes'
         handler_done = w.calls.count('delete') >= (2 if fail_first else 1)
+        if vkopf.cell('two_delete', False):
+            handler_done = handler_done and w.calls.count('delete2') >= 1
         if deleting and match and not handler_done and FIN not in fins:
             ok = False
         if deleting and match and FIN in fins and w.calls.count('delete') == 0:
@@ -430,6 +438,9 @@ def obligations():
     # (the foreign write that slips in before one of the operator's requests: appends, inserts in front, or removes a finalizer)
     for (s0, fk) in ((0, 0), (1, 1), (3, 2), (0, 1), (0, 2)):
         obs.append(Ob('h_history', {'n': 1, 'pin': {'s0': s0, 'fk': fk}}, tiers=('quick',), timeout=900, path_timeout=300))
+    # unfinished is unfinished also when the next attempt is due at once (a retry delay of 0; one handler per cycle of two)
+    obs.append(Ob('h_history', {'n': 1, 'retry_delay': 0, 'pin': {'s0': 0, 'fk': 0}}, timeout=900, path_timeout=300))
+    obs.append(Ob('h_history', {'n': 1, 'two_delete': True, 'pin': {'s0': 0, 'fk': 0}}, timeout=900, path_timeout=300))
     obs.append(Ob('h_history', {'n': 1}, tiers=('quick', 'thorough'), timeout=600, path_timeout=300, twins=['conflict'], main=False))
     obs.append(Ob('h_history', {'n': 2, 'pin': {'s0': 2, 's1': 0, 'fk': 1}}, tiers=('quick',), timeout=900, path_timeout=300))
     obs += split(Ob('h_history', {'n': 1}, timeout=900, path_timeout=300, tiers=('thorough',)), s0=[0, 1, 2, 3, 4], fk=[0, 1, 2])
